@@ -37,12 +37,29 @@ def smoke_histories(run, tag):
     gc.replay(run, recs, byid, [gc.SLG, gc.REC, gc.RECNC])
     run.extra["smoke_programs"] = len(sm)
 
+def rec_engine(run, tier, tag, max_ops, max_stop, caches, goals=None):
+    """the recursive solver in lock-step with RecGround.tla (answers and engine events of every behaviour) on a sampled family plus the
+    structured programs of ground.smoke()"""
+    import props_rec
+    n = 40 if tier == "quick" else 600
+    f = ground.family(2, 2, 2, True, True, seed=seed(), sample=n) if tier == "quick" else ground.family(3, 3, 1, True, True, seed=seed(), sample=n)
+    fam, ids = [], set()
+    for p in f + ground.smoke():
+        p = dict(p)
+        while p["id"] in ids: p["id"] += 5000000
+        ids.add(p["id"]); fam.append(p)
+    byid = {p["id"]: p for p in fam}
+    for c in caches:
+        props_rec.rec_lockstep(run, fam, byid, goals or gc.goals_atoms_and_not, tag + ("c" if c else "n"), max_ops=max_ops, max_stop=max_stop, cache_on=c)
+
 # ------------------------------------------------------------------------------------------------
 @prop("C02")
 def c02(run, tier):
     run.rule = ("TLC enumerates (program, closed goal) from the propositional family incl. negation and coinduction; "
                 "invariant ResultsCorrect (engine model answers Unique/None exactly as the program means); every behaviour replayed on "
                 "real SLG (answer + step count), recursive (cache on/off) under two limit configurations; SLG traces validated against SLG.tla; "
+                "the recursive solver is additionally run in lock-step with its own engine model RecGround.tla (answers and the exact sequence of "
+                "engine events: cache / search-graph hits, new goals, iteration results, what becomes of a finished goal), invariants CacheSound, GraphEmpty; "
                 "non-trivial = program has >= 1 clause; distinct = (program text, ops, solver)")
     run.assumptions = GROUND_ASSUME + ["limit configurations: SLG max_size 10 and 30; recursive overflow 100/max_size 30 and overflow 20/max_size 10"]
     f, byid = fam(run, tier, (2, 2, 2, True, True), 500, (3, 3, 1, True, True), 9000)
@@ -54,6 +71,7 @@ def c02(run, tier):
     gc.replay(run, recs, byid, [gc.SLG, gc.REC, gc.RECNC])
     gc.replay(run, recs, byid, [{"kind": "slg", "max_size": 30}, {"kind": "rec", "overflow": 20, "cache": True, "max_size": 10}],
               validate=False, label="limits2")
+    rec_engine(run, tier, "C02r", max_ops=1, max_stop=0, caches=(True, False))
 
 # ------------------------------------------------------------------------------------------------
 def auto_ok(p):
@@ -155,7 +173,10 @@ def c09(run, tier):
 def c10(run, tier):
     run.rule = ("TLC enumerates every history (orders, repetitions) of up to MaxOps goals on one solver instance for each program of the family; "
                 "invariant ResultsCorrect: each answer equals the program's meaning, hence the answer of a fresh solver; replay on real SLG "
-                "(answer and step count per call), recursive with cache on and off; SLG traces validated")
+                "(answer and step count per call), recursive with cache on and off; SLG traces validated; RecGround.tla: the recursive solver's "
+                "fixed-point engine (cache, search graph, stack, minimums, iteration) as a recursive operator, every history of two solves model-checked "
+                "(ResultsCorrect, CacheSound: every cache entry is the meaning of its goal, GraphEmpty) and the real solver's engine events compared "
+                "event by event")
     run.assumptions = GROUND_ASSUME
     if tier == "quick":
         f, byid = fam(run, tier, (2, 2, 2, True, True), 70, None)
@@ -167,6 +188,7 @@ def c10(run, tier):
     smoke_histories(run, "C10s")
     recs = [r for r in recs if len(r["results"]) >= 2]
     gc.replay(run, recs, byid, [gc.SLG, gc.REC, gc.RECNC])
+    rec_engine(run, tier, "C10r", max_ops=2, max_stop=0, caches=(True,))
 
 # ------------------------------------------------------------------------------------------------
 @prop("C11")
@@ -177,7 +199,9 @@ def c11(run, tier):
                 "ApproxMC.tla defines which results an interrupted solve may return for a given full answer (Approx = equal, or ambiguous and claiming "
                 "nothing the full answer does not imply; checked to be a sound preorder) and prints the table; goals with unknowns of ImplMC / MiniMC "
                 "programs are solved fully, then on a fresh solver with the callback returning false at its k-th consultation (k <= 5, thorough 8) followed "
-                "by an unlimited solve on the same solver: the interrupted answer must be admissible by the table and the later solve must equal the fresh one")
+                "by an unlimited solve on the same solver: the interrupted answer must be admissible by the table and the later solve must equal the fresh one; "
+                "RecGround.tla: histories with interruptions of the recursive solver (cache on and off) model-checked (InterruptSafe, CacheSound: nothing "
+                "computed after an interruption reaches the cache) and compared with the real solver event by event")
     run.assumptions = GROUND_ASSUME + ["ground goals: the only weaker answer is Ambig(Unknown)",
                                        "first-order: substitutions are compared as equal / more general / other (the three patterns of ApproxMC.tla); the recursive "
                                        "solver with the cache disabled is not run on the generic-struct programs (exponential even without interruption)"]
@@ -189,6 +213,7 @@ def c11(run, tier):
                                                           "Invariants": ["ResultsCorrect", "DeviationShape", "EnginePanicShape", "InterruptSafe", "BoundedWork"]}, "C11")
     recs = [r for r in recs if any(x["kind"] == "limited" for x in r["results"])]
     gc.replay(run, recs, byid, [gc.SLG, gc.REC, gc.RECNC])
+    rec_engine(run, tier, "C11r", max_ops=2, max_stop=2, caches=(True, False), goals=gc.goals_atoms)
     import props_intr
     props_intr.interrupt_first_order(run, tier)
 
